@@ -92,7 +92,7 @@ fn emit(ctx: &mut Ctx, env: &Env, kind: &str, line: String, res: &JubjubExtended
     let aff = JubjubAffine::from(res);
     ctx.case(kind, nontrivial, &line, &format!("{} {}", ext_tok(res), aff_tok(&aff)));
     if aff_e(&env.f, &aff) != *spec || !ext_wellformed(env, res) {
-        ctx.oracle_fail(
+        crate::fail(ctx, 
             &format!("C11:jj:{}", line),
             "Jubjub operation disagrees with the affine twisted-Edwards law over big integers (or yields a malformed extended point)",
             json!({"op": line, "impl_raw": ext_tok(res), "impl_affine": aff_tok(&aff), "law": big::tok_pair(spec)}),
@@ -102,7 +102,7 @@ fn emit(ctx: &mut Ctx, env: &Env, kind: &str, line: String, res: &JubjubExtended
 
 fn variant_eq(ctx: &mut Ctx, line: &str, a: &JubjubExtended, b: &JubjubExtended) {
     if a.verif_raw() != b.verif_raw() {
-        ctx.oracle_fail(
+        crate::fail(ctx, 
             &format!("C11:jj:variant:{}", line),
             "two forms of the same Jubjub operation (operator overload / in-place / newtype) give different results",
             json!({"op": line, "a": ext_tok(a), "b": ext_tok(b)}),
@@ -230,7 +230,7 @@ pub fn run(ctx: &mut Ctx) {
         || !bool::from(JubjubAffine::identity().is_identity())
         || JubjubSubgroup::identity() != JubjubSubgroup::default()
     {
-        ctx.oracle_fail("C11:jj:identity", "Jubjub identity constructors disagree", json!({}));
+        crate::fail(ctx, "C11:jj:identity", "Jubjub identity constructors disagree", json!({}));
     }
     {
         // JubjubSubgroup::generator = generator.clear_cofactor
@@ -269,7 +269,7 @@ pub fn run(ctx: &mut Ctx) {
         let is_id = bool::from(p.is_identity());
         ctx.case("jj-pred", nt, &format!("jj isid {pt}"), &format!("{}", is_id as u8));
         if is_id != bool::from(pa.is_identity()) || is_id != (pe == (env.f.fp(0u32.into()), env.f.fp(1u32.into()))) {
-            ctx.oracle_fail(&format!("C11:jj:isid {pt}"), "is_identity disagrees with the affine value", json!({"p": pt}));
+            crate::fail(ctx, &format!("C11:jj:isid {pt}"), "is_identity disagrees with the affine value", json!({"p": pt}));
         }
         let small = bool::from(p.is_small_order());
         ctx.case("jj-pred", nt, &format!("jj small {pt}"), &format!("{}", small as u8));
@@ -285,12 +285,12 @@ pub fn run(ctx: &mut Ctx) {
             || small != bool::from(pa.is_small_order())
             || bool::from(p.into_subgroup().is_some()) != tf
         {
-            ctx.oracle_fail(&format!("C11:jj:tf {pt}"), "torsion / small-order predicate disagrees with r·P (8·P) by the affine law", json!({"p": pt, "tf": tf, "tf_law": tf_law, "small": small, "small_law": small_law}));
+            crate::fail(ctx, &format!("C11:jj:tf {pt}"), "torsion / small-order predicate disagrees with r·P (8·P) by the affine law", json!({"p": pt, "tf": tf, "tf_law": tf_law, "small": small, "small_law": small_law}));
         }
         let prime = bool::from(p.is_prime_order());
         ctx.case("jj-pred", nt, &format!("jj prime {pt}"), &format!("{}", prime as u8));
         if prime != bool::from(pa.is_prime_order()) {
-            ctx.oracle_fail(&format!("C11:jj:prime {pt}"), "is_prime_order differs between affine and extended", json!({"p": pt}));
+            crate::fail(ctx, &format!("C11:jj:prime {pt}"), "is_prime_order differs between affine and extended", json!({"p": pt}));
         }
     }
 
@@ -372,7 +372,7 @@ pub fn run(ctx: &mut Ctx) {
         let eq_aff = pe == qe;
         ctx.case("jj-eq", true, &format!("jj eq {pt} {qt}"), &format!("{} {}", eq as u8, eq_aff as u8));
         if eq != eq_aff || eq != bool::from(subtle::ConstantTimeEq::ct_eq(&p, &q)) || (pa == qa) != eq_aff {
-            ctx.oracle_fail(&format!("C11:jj:eq {pt} {qt}"), "equality of extended points differs from equality of their affine values", json!({"p": pt, "q": qt}));
+            crate::fail(ctx, &format!("C11:jj:eq {pt} {qt}"), "equality of extended points differs from equality of their affine values", json!({"p": pt, "q": qt}));
         }
         // subgroup newtype
         if let (Some(ps), Some(qs)) = (Option::<JubjubSubgroup>::from(p.into_subgroup()), Option::<JubjubSubgroup>::from(q.into_subgroup())) {
@@ -456,7 +456,7 @@ pub fn run(ctx: &mut Ctx) {
         ctx.case("jj-batch-normalize", *len > 1, &format!("jj bn:free-fn {}", toks.join(" ")), &out2.iter().map(aff_tok).collect::<Vec<_>>().join(" "));
         for (i, p) in pts.iter().enumerate() {
             if out[i] != JubjubAffine::from(p) || out2[i] != out[i] || copy[i] != *p || copy[i].verif_raw()[2] != Base::ONE {
-                ctx.oracle_fail(&format!("C11:jj:bn {}", toks.join(" ")), "batch_normalize differs from to_affine", json!({"index": i}));
+                crate::fail(ctx, &format!("C11:jj:bn {}", toks.join(" ")), "batch_normalize differs from to_affine", json!({"index": i}));
             }
         }
     }
@@ -481,7 +481,7 @@ fn decode_all(ctx: &mut Ctx, env: &Env, class: &str, b: [u8; 32]) {
         && d5.map(|p| p.verif_raw()) == d4.map(|p| p.verif_raw())
         && d7.map(|p| JubjubExtended::from(p).verif_raw()) == d4.map(|p| p.verif_raw());
     if !same {
-        ctx.oracle_fail(&format!("C11:jj:dec-variants {h}"), "the Jubjub decoders (affine / extended / batch / unchecked) disagree on one byte string", json!({"bytes": h}));
+        crate::fail(ctx, &format!("C11:jj:dec-variants {h}"), "the Jubjub decoders (affine / extended / batch / unchecked) disagree on one byte string", json!({"bytes": h}));
     }
     let pre: Option<JubjubAffine> = JubjubAffine::from_bytes_pre_zip216_compatibility(b).into();
     ctx.case("jj-dec", true, &format!("jj dec_pre216 {h}"), &fmt(pre));
@@ -491,7 +491,7 @@ fn decode_all(ctx: &mut Ctx, env: &Env, class: &str, b: [u8; 32]) {
     if let Some(p) = d {
         let pe = aff_e(&env.f, &p);
         if !big::e_on_curve(&env.f, &env.a, &env.d, &pe) || p.to_bytes() != b {
-            ctx.oracle_fail(&format!("C11:jj:dec {h}"), "JubjubAffine::from_bytes accepts an off-curve or non-canonical encoding", json!({"bytes": h, "decoded": aff_tok(&p), "reencoded": hex_bytes(&p.to_bytes())}));
+            crate::fail(ctx, &format!("C11:jj:dec {h}"), "JubjubAffine::from_bytes accepts an off-curve or non-canonical encoding", json!({"bytes": h, "decoded": aff_tok(&p), "reencoded": hex_bytes(&p.to_bytes())}));
         }
     }
     if let Some(s) = sub {
@@ -499,7 +499,7 @@ fn decode_all(ctx: &mut Ctx, env: &Env, class: &str, b: [u8; 32]) {
         let pe = aff_e(&env.f, &p);
         let id = (env.f.fp(0u32.into()), env.f.fp(1u32.into()));
         if big::e_mul(&env.f, &env.a, &env.d, &jj_r(), &pe) != id || d.is_none() {
-            ctx.oracle_fail(&format!("C11:jj:dec_sub {h}"), "JubjubSubgroup::from_bytes accepts a point outside the prime-order subgroup", json!({"bytes": h}));
+            crate::fail(ctx, &format!("C11:jj:dec_sub {h}"), "JubjubSubgroup::from_bytes accepts a point outside the prime-order subgroup", json!({"bytes": h}));
         }
     }
 }
@@ -512,11 +512,11 @@ fn codec(ctx: &mut Ctx, env: &Env, ops: &[Operand]) {
         let b = pa.to_bytes();
         ctx.case("jj-enc", true, &format!("jj enc {}", aff_tok(&pa)), &hex_bytes(&b));
         if <JubjubAffine as GroupEncoding>::to_bytes(&pa) != b || <JubjubExtended as GroupEncoding>::to_bytes(&p) != b {
-            ctx.oracle_fail(&format!("C11:jj:enc-variants {}", aff_tok(&pa)), "Jubjub encoders disagree", json!({}));
+            crate::fail(ctx, &format!("C11:jj:enc-variants {}", aff_tok(&pa)), "Jubjub encoders disagree", json!({}));
         }
         let back: Option<JubjubAffine> = JubjubAffine::from_bytes(b).into();
         if back != Some(pa) {
-            ctx.oracle_fail(&format!("C11:jj:roundtrip {}", aff_tok(&pa)), "from_bytes(to_bytes(P)) != P for a point on the curve", json!({"p": aff_tok(&pa), "bytes": hex_bytes(&b)}));
+            crate::fail(ctx, &format!("C11:jj:roundtrip {}", aff_tok(&pa)), "from_bytes(to_bytes(P)) != P for a point on the curve", json!({"p": aff_tok(&pa), "bytes": hex_bytes(&b)}));
         }
         decode_all(ctx, env, &format!("valid:{}", o.class), b);
     }
